@@ -2,6 +2,7 @@ package eng
 
 import (
 	"go/token"
+	"strings"
 	"go/types"
 
 	"golang.org/x/tools/go/ssa"
@@ -131,6 +132,20 @@ func (p *Prog) Origins(v ssa.Value, o OriginOpts) []ssa.Value {
 						leaf(v)
 						return
 					}
+					// when every store to the cell is in the loading function, the store that reaches this load along the
+					// dominator chain (if unique) is the only origin
+					local := true
+					for _, s := range st {
+						if s.Parent() != x.Parent() {
+							local = false
+						}
+					}
+					if local && len(st) > 1 {
+						if rv := p.ReachingStore(x, x); rv != nil {
+							walk(rv, d+1)
+							return
+						}
+					}
 					for _, s := range st {
 						walk(s.Val, d+1)
 					}
@@ -239,20 +254,94 @@ func (p *Prog) paramArgs(x *ssa.Parameter) []ssa.Value {
 
 // callResults: the values returned as result idx by the (single, repo) callee of call; nil if not applicable.
 func (p *Prog) callResults(call *ssa.Call, idx int) []ssa.Value {
-	callees := p.Callees(call)
-	if len(callees) != 1 || !p.InRepo(callees[0]) || len(callees[0].Blocks) == 0 {
+	// only statically bound calls (functions, concrete methods, immediately invoked closures): interface calls are not entered
+	var callee *ssa.Function
+	if f := call.Call.StaticCallee(); f != nil {
+		callee = f
+	} else if mc, ok := call.Call.Value.(*ssa.MakeClosure); ok {
+		callee, _ = mc.Fn.(*ssa.Function)
+	}
+	if callee == nil || !p.InRepo(callee) || len(callee.Blocks) == 0 {
 		return nil
 	}
+	sig := callee.Signature
+	n := sig.Results().Len()
+	errLike := false
+	if n > 0 {
+		t := sig.Results().At(n - 1).Type()
+		if types.Identical(t, types.Universe.Lookup("error").Type()) {
+			errLike = true
+		} else if _, isPtr := t.(*types.Pointer); isPtr {
+			ms := types.NewMethodSet(t)
+			for i := 0; i < ms.Len(); i++ {
+				if ms.At(i).Obj().Name() == "Error" {
+					errLike = true
+				}
+			}
+		}
+	}
 	var out []ssa.Value
-	for _, r := range Returns(callees[0]) {
+	for _, r := range Returns(callee) {
 		if r.Block().Comment == "recover" {
 			continue
 		}
-		if idx < len(r.Results) {
-			out = append(out, r.Results[idx])
+		if idx >= len(r.Results) {
+			continue
 		}
+		// values returned together with a definitely non-nil error are not used by callers that test the error first
+		if errLike && idx != n-1 && p.definitelyNonNil(r.Results[n-1], r) {
+			continue
+		}
+		out = append(out, r.Results[idx])
+	}
+	if len(out) == 0 {
+		return nil
 	}
 	return out
+}
+
+// definitelyNonNil: v (an error-like value returned at r) is known non-nil: a constructor call, or r is only reachable
+// through the non-nil edge of a nil test on v (or on the value v was loaded from).
+// DefinitelyNonNil is exported for the rules.
+func (p *Prog) DefinitelyNonNil(v ssa.Value, r *ssa.Return) bool { return p.definitelyNonNil(v, r) }
+
+func (p *Prog) definitelyNonNil(v ssa.Value, r *ssa.Return) bool {
+	if rv := p.ReachingStore(v, r); rv != nil {
+		v = rv
+	}
+	switch x := v.(type) {
+	case *ssa.Const:
+		return false
+	case *ssa.Call:
+		n := CalleeName(&x.Call)
+		if n == "fmt.Errorf" || n == "errors.New" || n == "net.NewConnectionError" || strings.HasSuffix(n, ".NewConnectionError") || n == "errors.Join" {
+			return true
+		}
+	case *ssa.MakeInterface:
+		if _, isC := x.X.(*ssa.Const); !isC {
+			return true
+		}
+	case *ssa.Alloc:
+		return true
+	}
+	fn := r.Parent()
+	_, nn := p.NilEdges(fn, func(y ssa.Value) bool { return y == v })
+	if len(nn) > 0 && Cut(fn, r.Block(), nn) {
+		return true
+	}
+	// error wrapping: v = wrap(e, ...) returned on the e != nil edge
+	if call, ok := v.(*ssa.Call); ok {
+		for _, a := range call.Call.Args {
+			if !types.Identical(a.Type(), types.Universe.Lookup("error").Type()) {
+				continue
+			}
+			_, nn := p.NilEdges(fn, func(y ssa.Value) bool { return y == a })
+			if len(nn) > 0 && Cut(fn, r.Block(), nn) {
+				return true
+			}
+		}
+	}
+	return false
 }
 
 // Deep is Plain plus interprocedural provenance.
